@@ -16,8 +16,8 @@ ANCHORS = ["common/domain.py"]
 RULE = ("every (nelx,nely[,nelz]) up to the tier bound is one case (exhaustive), with random element sizes and "
         "ndof 1..4; distinct = distinct grid; non-trivial = grid with >=2 elements")
 EXHAUSTIVE = {"quick": True, "thorough": True}
-ASSUMPTIONS = ["bounds: quick 2D<=6x6, 3D<=4^3; thorough 2D<=12x12, 3D<=6^3", "1D domains are outside the statement"]
-FLOORS = {"quick": {"cases_held": 100, "shape_points": 2000}, "thorough": {"cases_held": 360, "shape_points": 8000}}
+ASSUMPTIONS = ["bounds: quick 2D<=6x6, 3D<=4^3; thorough 2D<=12x12, 3D<=6^3; plus 3 (quick) / 8 (thorough) large grids up to 66 000 nodes (integer-width thresholds)", "1D domains are outside the statement"]
+FLOORS = {"quick": {"cases_held": 103, "shape_points": 2000}, "thorough": {"cases_held": 360, "shape_points": 8000}}
 TIMEOUT_CASE = 120
 
 
@@ -25,6 +25,12 @@ def plan(tier, seed):
     b2, b3 = (6, 4) if tier == "quick" else (12, 6)
     cases = [{"n": [i, j, 0]} for i in range(1, b2 + 1) for j in range(1, b2 + 1)]
     cases += [{"n": [i, j, k]} for i in range(1, b3 + 1) for j in range(1, b3 + 1) for k in range(1, b3 + 1)]
+    # beyond the enumerated bound: a few grids whose node / dof numbers cross the limits of the narrow integer types
+    # (int16: 32767 between nnodes and 4*nnodes, uint16: 65535)
+    big = [[128, 128, 0], [25, 25, 25], [181, 180, 0]]
+    if tier != "quick":
+        big += [[255, 256, 0], [40, 40, 40], [1, 33000, 0], [20000, 1, 0], [31, 32, 33]]
+    cases += [{"n": n, "big": True} for n in big]
     return cases
 
 
